@@ -288,5 +288,5 @@ int main() {
             for (auto &e : fs::directory_iterator("/proc/self/fd")) { (void) e; ++fdsNow; }
             if (fdsNow > fds0) oracle_fail("C18: " + std::to_string(fdsNow - fds0) + " file descriptor(s) opened by Path operations were never closed");
         }
-    }, 60, 32);
+    }, 15, 32);
 }
